@@ -1,16 +1,16 @@
 #!/usr/bin/env python3
 """Regenerates the seed tables of DESIGN.md §9 (between the markers) from /verif/seeded/*/meta.json."""
 import json, glob, os, re
-rows1, rows2, rows3, rows4, rows5, rows6, rows7, rows8, rows9 = [], [], [], [], [], [], [], [], []
+rows1, rows2, rows3, rows4, rows5, rows6, rows7, rows8, rows9, rows10 = [], [], [], [], [], [], [], [], [], []
 for d in sorted(glob.glob('/verif/seeded/*')):
     m = json.load(open(d + '/meta.json'))
     n = os.path.basename(d)
     det = m.get('detection') == 'DETECTED'
     by = ('`' + (m.get('detected_by') or '') + '`') if det else '**missed**'
-    if '-r2m' in n or '-r3m' in n or '-r4m' in n or '-r5m' in n or '-r6m' in n or '-r7m' in n or '-r8m' in n or '-r9m' in n:
+    if '-r2m' in n or '-r3m' in n or '-r4m' in n or '-r5m' in n or '-r6m' in n or '-r7m' in n or '-r8m' in n or '-r9m' in n or '-r10m' in n:
         fs = m.get('first_sweep', '')
         first = 'detected' if fs.startswith('DETECTED') else 'missed'
-        (rows2 if '-r2m' in n else rows3 if '-r3m' in n else rows4 if '-r4m' in n else rows5 if '-r5m' in n else rows6 if '-r6m' in n else rows7 if '-r7m' in n else rows8 if '-r8m' in n else rows9).append(f"| {n} | {m.get('what','')} | {first} | {by} | {m.get('history','')} |")
+        (rows2 if '-r2m' in n else rows3 if '-r3m' in n else rows4 if '-r4m' in n else rows5 if '-r5m' in n else rows6 if '-r6m' in n else rows7 if '-r7m' in n else rows8 if '-r8m' in n else rows9 if '-r9m' in n else rows10).append(f"| {n} | {m.get('what','')} | {first} | {by} | {m.get('history','')} |")
     else:
         rows1.append(f"| {n} | {m.get('what','')} | {by} | {m.get('history','')} |")
 def count(rows, col):
@@ -40,6 +40,9 @@ n8first = sum(1 for r in rows8 if r.split('|')[3].strip() == 'detected')
 t9 = "| seed | what the change does | first sweep | caught by (now) | history |\n|---|---|---|---|---|\n" + "\n".join(rows9)
 n9d = count(rows9, 4)
 n9first = sum(1 for r in rows9 if r.split('|')[3].strip() == 'detected')
+t10 = "| seed | what the change does | first sweep | caught by (now) | history |\n|---|---|---|---|---|\n" + "\n".join(rows10)
+n10d = count(rows10, 4)
+n10first = sum(1 for r in rows10 if r.split('|')[3].strip() == 'detected')
 s = open('/verif/DESIGN.md').read()
 a = s.index('<!-- SEEDS:BEGIN -->'); b = s.index('<!-- SEEDS:END -->')
 body = f"""<!-- SEEDS:BEGIN -->
@@ -135,6 +138,17 @@ non-canonical transaction encodings), mirrors the reference, or needs a store th
 "Round 9, not acted upon").
 
 {t9}
+
+### Round 10 ({len(rows10)} confirmed seeds; {n10first} detected by the first sweep, {n10d} detected now, {len(rows10)-n10d} missed)
+
+Round 10 went back to the eight properties of round 8 in the last three hours. The C04 agent delivered nothing - every
+candidate it built was caught by the existing suite, and it said which test caught which - and three agents delivered
+one mutation instead of two for the same reason: after nine rounds the space of small changes that break a property
+*and* survive the repository's own tests is visibly thinner for these properties. Four of the fifteen deliveries met an
+existing rule (one of them re-introduced the defect of finding 108, an hour after its repair). One is still missed and
+is of the kind section 7 declares out of reach (counter arithmetic).
+
+{t10}
 
 """
 s = s[:a] + body + s[b:]
